@@ -1,4 +1,6 @@
 // Monitor C20: polynomial bases, quadrature and interval search against their definitions.
+#include <deque>
+#include <span>
 #include <algorithm>
 #include <cmath>
 #include <compare>
@@ -370,6 +372,32 @@ static void search_case(Report & rep, const std::string & T, const std::vector<T
   rep.require("binary_interval_search." + T, which, ok, det);
 }
 
+// range and query of different types / other random-access containers (values are small integers, exact in every type)
+template<typename Range, typename Tq>
+static void search_case_mixed(Report & rep, const std::string & T, const Range & rg, const Tq & t, const std::function<std::string()> & det)
+{
+  const long n   = long(std::ranges::size(rg));
+  const long idx = long(smooth::utils::binary_interval_search(rg, t) - std::ranges::cbegin(rg));
+  auto v         = [&](long i) { return double(*(std::ranges::cbegin(rg) + i)); };
+  const double tv = double(t);
+  bool ok;
+  std::string which;
+  if (n == 0) {
+    which = "case1_empty";
+    ok    = idx == n;
+  } else if (tv < v(0)) {
+    which = "case2_below";
+    ok    = idx == n;
+  } else if (tv >= v(n - 1)) {
+    which = "case3_above";
+    ok    = idx == n - 1;
+  } else {
+    which = "case4_interior";
+    ok    = idx >= 0 && idx + 1 < n && v(idx) <= tv && tv < v(idx + 1);
+  }
+  rep.require("binary_interval_search." + T, which, ok, det);
+}
+
 static void search(Report & rep)
 {
   // exhaustive: all sorted ranges of length 0..8 over a 5-letter alphabet x 11 queries
@@ -396,6 +424,19 @@ static void search(Report & rep)
           search_case<Opaque>(rep, "opaque", ro, Opaque{q}, [](const Opaque & o) { return o.v; }, det);
           // non-integer query against doubles
           search_case<double>(rep, "double", rd, q + 0.5, [](double x) { return x; }, det);
+          // query type different from the element type; other random-access ranges
+          {
+            const std::vector<float> rf(rd.begin(), rd.end());
+            const std::deque<double> dq(rd.begin(), rd.end());
+            search_case_mixed(rep, "float_range.double_query", rf, q + 0.5, det);
+            search_case_mixed(rep, "float_range.double_query", rf, double(q), det);
+            search_case_mixed(rep, "double_range.int_query", rd, q, det);
+            search_case_mixed(rep, "int_range.double_query", ri, q + 0.5, det);
+            search_case_mixed(rep, "int_range.double_query", ri, double(q), det);
+            search_case_mixed(rep, "deque", dq, q + 0.5, det);
+            search_case_mixed(rep, "deque", dq, double(q), det);
+            search_case_mixed(rep, "span", std::span<const double>(rd.data(), rd.size()), double(q), det);
+          }
         }
         return;
       }
